@@ -62,7 +62,7 @@ class Lock:
 VARIANTS = {
     # name: (CC, CFLAGS, extra make vars)
     "plain": ("gcc", "-O1 -g -Wno-error"),
-    "asan": ("gcc", "-O1 -g -fsanitize=address,undefined -fno-sanitize-recover=undefined -fno-omit-frame-pointer -Wno-error"),
+    "asan": ("gcc", "-O1 -g -fsanitize=address,bounds -fno-sanitize-recover=bounds -fno-omit-frame-pointer -Wno-error"),
     "tsan": ("gcc", "-O1 -g -fsanitize=thread -Wno-error"),
     "assert": ("gcc", "-O1 -g -Wno-error -DWANT_ASSERT=1"),
 }
@@ -122,7 +122,7 @@ def get_harness(build, variant="plain", extra_flags=""):
             f.write('#include "harness.h"\n')
             for r in regs: f.write("extern const opdef_t %s[];\n" % r)
             f.write("const opdef_t *const h_registry[] = {%s 0};\n" % "".join(r + ", " for r in regs))
-        san = {"asan": "-fsanitize=address,undefined -fno-sanitize-recover=undefined", "tsan": "-fsanitize=thread"}.get(variant, "")
+        san = {"asan": "-fsanitize=address,bounds -fno-sanitize-recover=bounds", "tsan": "-fsanitize=thread"}.get(variant, "")
         cmd = "gcc -O1 -g -w %s %s -I%s -I%s/harness -DHAVE_CONFIG_H %s %s %s/.libs/libmpir.a -lm -lpthread -o %s.tmp && mv %s.tmp %s" % (
             san, extra_flags, build, VERIF, " ".join(srcs), reg_c, build, exe, exe, exe)
         rc, out = run(cmd, timeout=600)
